@@ -10,15 +10,15 @@ META = dict(
     technique="Coq-verified theory-lemma checkers (Farkas/LIA tightening, mixed LA clauses with equalities, congruence "
               "closure) + every theory clause of traced runs replayed through the extracted checker of its theory",
     level_text="PARTIAL. Proved for all inputs: soundness of the checkers (farkas_check_sound, lra_clause_check_sound, "
-               "lia_check_sound, mixed_clause_check_sound, cc_sound, euf_clause_check_sound), validity of branch/cut split "
+               "lia_check_sound, mixed_clause_check_sound, cc_sound, euf_clause_check_sound, array_schema_sound, array_case_split_sound), validity of branch/cut split "
                "clauses (branch_clause_valid) and of the three interface clauses of addInterfaceClausesForEquality "
                "(interface_eq_clauses_valid), and (C26) that the simplex row explanation always passes the Farkas checker. "
-               "Per run: every (t ...) event (conflict, reason, split) of generated scripts in 12 logics x 8 engine "
+               "Per run: every (t ...) event (conflict, reason, split) of generated scripts in 13 logics x 8 engine "
                "configurations is decided by the extracted checker of its theory; certificates come from the (la) hook or "
                "from an untrusted exact LP.",
     level_note="Partial: the Egraph explanation algorithm, the STP (difference logic) cycle search and the array solver are not "
-               "modelled — their clauses are only checked per run. Array lemmas that are not EUF-valid are decided by z3/cvc5 "
-               "(untrusted) and counted as unverified-array-lemma. Combination: a clause is accepted if it is valid in LA "
+               "modelled — their clauses are only checked per run. Array clauses go through congruence closure + read-over-write + case analysis on index pairs "
+               "(verified); the residue (extensionality lemmas) is ORACLE-ONLY: z3 and cvc5 (untrusted), counted as unverified-array-lemma. Combination: a clause is accepted if it is valid in LA "
                "(uninterpreted terms abstracted to variables) or in EUF (arithmetic operators read as uninterpreted); "
                "Boolean atoms are read two-valued. Root-level deductions are checked through the reason clause the hook requests for them.",
     design_ref="DESIGN.md §7 C11, §4.3, design/C11.md",
